@@ -35,7 +35,7 @@ ASSUMPTIONS = [
     "every operation works on its own files, so a fix in operation j cannot legitimately change the input of operation k",
 ]
 CHAINS_ENABLED = True
-PROBES = ["shape:dirty-chain", "dirty_chain_faults_fired", "shape:chain", "history_cli_multi_invocation", "history_api_reuse", "history_with_fault", "multi_file_op", "carrier_pair_same_group", "extension_toggled", "api_after_exception"]
+PROBES = ["shape:plugin-dirs", "shape:dirty-chain", "dirty_chain_faults_fired", "shape:chain", "history_cli_multi_invocation", "history_api_reuse", "history_with_fault", "multi_file_op", "carrier_pair_same_group", "extension_toggled", "api_after_exception"]
 
 
 
@@ -231,6 +231,31 @@ def chain_count(tier):
     return len(_PLAN_CACHE[tier])
 
 
+def _gen_plugin_dirs(rng):
+    """Two invocations in one process that load rule plugins from two directories which
+    both contain a module of the same name (with different behaviour): the second
+    invocation must run the file it names."""
+    ops = []
+    first_dir, second_dir = rng.choice([("alt_a", "alt_b"), ("alt_a", "alt_b"), ("alt_b", "alt_a")])
+    doc = b"# T\n\nVP-TWIN\nVP-HELPER\n"
+    for k, plugin in enumerate(["<P>/%s/vpa001.py" % first_dir if first_dir == "alt_a" else "<P>/alt_a/vpa001.py", "<P>/%s/vpt002.py" % second_dir]):
+        name = "o%d/a.md" % k
+        flags = ["--add-plugin", plugin]
+        ops.append(
+            {
+                "kind": "cli-scan",
+                "mode": "scan",
+                "flags": flags,
+                "coe": False,
+                "files": workload.files_to_spec({name: doc}),
+                "docs": [name],
+                "labels": {name: "twin-marker"},
+                "op": {"kind": "cli", "argv": flags + ["scan", name]},
+            }
+        )
+    return {"cls": workload.draw_class(rng), "world": workload.draw_world(rng), "shape": "plugin-dirs", "group": None, "ops": ops, "plan": []}
+
+
 def generate(rng, tier, index):
     # scenario order: seeded histories first, then the (dirty, then plain) chains,
     # so that a wall-capped run still samples every shape
@@ -241,6 +266,8 @@ def generate(rng, tier, index):
         plain = sum(1 for entry in _PLAN_CACHE[tier] if entry[4] is None)
         dirty = total - plain
         return _gen_chain(tier, plain + chain_index if chain_index < dirty else chain_index - dirty)
+    if rng.random() < 0.04:
+        return _gen_plugin_dirs(rng)
     shape = rng.choice(["single-multi", "cli-seq", "cli-seq", "api-seq", "api-seq", "mixed"])
     group = workload.draw_group(rng) if rng.random() < 0.7 else None
     ops = []
